@@ -553,6 +553,8 @@ class C15(PokerProp):
         k = rng.choice([len(ops), len(ops), rng.randrange(0, len(ops) + 1)]) if ops else 0
         case["cut"] = k
         case["resets"] = rng.choice([1, 2, 3])
+        # the action log is not among the serialisable fields the property lists: resume without it in part of the cases
+        case["nolog"] = rng.random() < 0.4
         # continuation: the remaining real actions, each preceded by two probes
         cont = []
         prng = random_mod.Random(rng.random())
@@ -605,7 +607,7 @@ class C15(PokerProp):
             kw = poker.cfg_kwargs(case)
             g4 = cls(num_players=kw["num_players"], deck=list(g.deck), starting_stacks=kw["starting_stacks"], hands=kw["hands"],
                      boards=[list(g.boards[0])], ante=kw["ante"], blinds=list(g.blinds), stacks=list(g.stacks), action=g.action,
-                     street=g.street, actions=list(g.actions), last_actions=dict(g.last_actions),
+                     street=g.street, actions=(None if case.get("nolog") else list(g.actions)), last_actions=dict(g.last_actions),
                      pot_balances=dict(g.pot.balances), all_in_runouts=kw["all_in_runouts"],
                      rake_fraction=kw["rake_fraction"], max_rake=kw["max_rake"])
             g4._cv_fake = fake
@@ -645,7 +647,8 @@ class C15(PokerProp):
                 blinds = case["blinds"]
                 reqs.append(poker.request({**case, "deck": S["deck"], "board": S["board"], "ops": case["cont"],
                                            "resume": {"stacks": S["stacks"], "pot": S["pot"], "street": S["street"],
-                                                      "action": S["action"], "last": S["last"], "log": S["log"]}}))
+                                                      "action": S["action"], "last": S["last"],
+                                                      "log": ([] if case.get("nolog") else S["log"])}}))
         return {"op": "multi", "reqs": reqs}
 
     def judge(self, case, io, mo):
